@@ -90,7 +90,7 @@ def run_case(case, ctx):
         else:
             tgt, sd = None, None
         kw = dict(target=tgt, sd_hat=sd, burn_in=burn, delta=delta, threshold=thr, direction=direction)
-        d = CUSUM(**gen.maybe_numpy(kw, case, ctx))
+        d = gen.construct(CUSUM, kw, case, ctx)
         sh = Shadow(lambda: CUSUMModel(**kw), lambda m: ("raise" if m.raises else m.state))
         tag = "CUSUM:%s" % direction
     else:
@@ -103,7 +103,7 @@ def run_case(case, ctx):
         xs, typed, unit = vary_units(rng, xs, ctx)
         delta *= unit
         kw = dict(delta=delta, threshold=thr, burn_in=burn, direction=direction)
-        d = PageHinkley(**gen.maybe_numpy(kw, case, ctx))
+        d = gen.construct(PageHinkley, kw, case, ctx)
         sh = Shadow(lambda: PHModel(**kw), lambda m: m.state)
         tag = "PH:%s" % direction
     return drive(det, d, sh, kw, xs, known if det == "CUSUM" else None, tag, ctx, typed)
